@@ -10,3 +10,6 @@ pub mod translating;
 pub(crate) mod verifying;
 
 pub use command_line::procedures::main;
+
+#[cfg(feature = "verif")]
+pub mod verif;
